@@ -133,6 +133,51 @@ impl Drop for WorkerProc {
     }
 }
 
+/// Run units [0, n) once with `workers` worker processes and return unit -> digest.
+pub fn digests(eng: Arc<dyn Engine>, ctx: &Ctx, n: u64, workers: usize) -> Result<BTreeMap<u64, u64>, String> {
+    let out: Arc<Mutex<BTreeMap<u64, u64>>> = Arc::new(Mutex::new(BTreeMap::new()));
+    let err: Arc<Mutex<Option<String>>> = Arc::new(Mutex::new(None));
+    let next = Arc::new(AtomicU64::new(0));
+    let mut hs = vec![];
+    for _ in 0..workers.max(1) {
+        let (eng, ctx, out, err, next) = (eng.clone(), ctx.clone(), out.clone(), err.clone(), next.clone());
+        hs.push(std::thread::spawn(move || {
+            let mut w = match WorkerProc::spawn(&ctx) {
+                Ok(w) => w,
+                Err(e) => {
+                    *err.lock().unwrap() = Some(e);
+                    return;
+                }
+            };
+            loop {
+                let u = next.fetch_add(1, Ordering::SeqCst);
+                if u >= n {
+                    break;
+                }
+                let req = json!({"op": "unit", "engine": eng.name(), "unit": u});
+                match w.request(&req, Duration::from_secs(eng.unit_timeout_s()), |_| {}) {
+                    Ok(v) => {
+                        let d = v.get("result").and_then(UnitResult::from_json).map(|r| r.digest).unwrap_or(0);
+                        out.lock().unwrap().insert(u, d);
+                    }
+                    Err(d) => {
+                        *err.lock().unwrap() = Some(format!("unit {}: {:?}", u, d));
+                        return;
+                    }
+                }
+            }
+        }));
+    }
+    for h in hs {
+        let _ = h.join();
+    }
+    if let Some(e) = err.lock().unwrap().take() {
+        return Err(e);
+    }
+    let m = out.lock().unwrap().clone();
+    Ok(m)
+}
+
 #[derive(Default)]
 pub struct Merged {
     pub stats: BTreeMap<String, u64>,
